@@ -180,7 +180,7 @@ def pick(seq, n, rnd):
     return [seq[0]] + [seq[i] for i in idx]
 
 
-def pick_bases(name, mod, items, n, rnd, cap=6, corpus_items=None):
+def pick_bases(name, mod, items, n, rnd, cap=8, corpus_items=None):
     """pick(items, n) plus one VALID representative of every branch of the format that the corpus documents: numbers are
     grouped by (length, classes of the first three characters, class of the last character) of the presentation as written
     without its separators (compact() or the canonical form would merge e.g. decimal and hexadecimal MEIDs) and the first of each group is added (at most cap
@@ -199,7 +199,8 @@ def pick_bases(name, mod, items, n, rnd, cap=6, corpus_items=None):
         # the presentation as written, separators dropped (compact() would merge e.g. decimal and hexadecimal MEIDs)
         c = ''.join(ch for ch in x if ch.isalnum())
         if isinstance(v, str) and v and c:
-            groups.setdefault((len(c), ''.join(cls(ch) for ch in c[:3]), cls(c[-1])), x)
+            head = c[:2].upper() if c[:2].isalpha() and c[:2].isascii() else ''.join(cls(ch) for ch in c[:2])    # type / country letters literally
+            groups.setdefault((len(c), head + ''.join(cls(ch) for ch in c[2:3]), cls(c[-1])), x)
     keys = sorted(groups)
     first = []                       # one group per distinct length first, then the other groups
     for k in keys:
